@@ -337,7 +337,7 @@ class Models(object):
                 if isinstance(item, SStr):
                     disj = []
                     for k in container:
-                        if isinstance(k, str):
+                        if isinstance(k, (str, SStr)):
                             r = self.str_eq(item, k)
                             if isinstance(r, SBool):
                                 disj.append(r.e)
@@ -528,6 +528,11 @@ class Models(object):
     def str_contains(self, hay, needle):
         hay, needle = mkstr(hay), mkstr(needle)
         if isinstance(needle, SStr):
+            # symbolic needle: only for plain holes (no escaped parts), by z3's str.contains
+            hs = SStr.of(hay)
+            if all(isinstance(a, (Lit, Val, IntLit)) for a in needle.atoms) and all(isinstance(a, (Lit, Val, IntLit)) for a in hs.atoms):
+                self.used("z3-strings")
+                return SBool(z3.Contains(hs.z3(), needle.z3()))
             raise Undecided("symbolic needle")
         if isinstance(hay, str):
             return needle in hay
